@@ -87,7 +87,7 @@ def seqBwRev : Ev → List Ev → Ev
     (l none o).flatMap (fun my => (seqBwRev l' ls s (some my.1)).map (fun r => (r.1, my.2)))
 
 /-- reverse of the non-empty list `e :: es` as (last, rest reversed) -/
-def revOnto : List Ev → Ev → List Ev → Ev × List Ev
+def revOnto {α : Type} : List α → α → List α → α × List α
   | [], e, acc => (e, acc)
   | e' :: es, e, acc => revOnto es e' (e :: acc)
 
